@@ -93,7 +93,8 @@ def helper(cfg, crate, rep):
     if len(utc) != 1 or len(gen) != 1 or len(slots) != 2:
         rep.fail("C09.range", key + "|shape", "expected exactly one UTCTime and one GeneralizedTime alternative", found=[s[2].get("kind") for s in slots])
         return
-    cu, cg = utc[0][0], gen[0][0]
+    cu_raw = utc[0][0]
+    cu, cg = common.concretise(I, utc[0][0]), common.concretise(I, gen[0][0])
     # the decision must be a function of one integer quantity: the year of the (UTC-normalised) value
     vars_ = set()
     for a in F.atoms(cu):
@@ -112,7 +113,7 @@ def helper(cfg, crate, rep):
     rep.ob("C09.range", key + "|bounds", not bad, "UTCTime exactly when 1950 <= year <= 2049 (RFC 5280 4.1.2.5): the decision was evaluated for every year in 1890..2120 and at the extremes", expected="1950..=2049 -> UTCTime", found="differs at years %s" % bad[:6] if bad else "agrees", sp=utc[0][2].get("sp"))
     rep.ob("C09.range", key + "|complement", not F.counterexamples(cg, Not(cu), "equiv"), "GeneralizedTime exactly otherwise (the two forms partition all inputs)", found=F.show(cg))
     yv = None
-    for a in F.atoms(cu):
+    for a in F.atoms(cu_raw):
         vals = I.atom_vals.get(a, ())
         for x in vals:
             if x is not None and core(x).r() == var:
@@ -160,8 +161,15 @@ def helper(cfg, crate, rep):
                         return r
             return None
         fh = findc(t)
-        order = [core(a).r() for a in fh.args] if fh is not None else None
-        ok = ok and order == ["time::OffsetDateTime::hour(dt)", "time::OffsetDateTime::minute(dt)", "time::OffsetDateTime::second(dt)"]
-        ok = ok and all(x in parts for x in ("hour", "minute", "second")) and not any(x in parts for x in ("nanosecond", "millisecond", "microsecond", "from_hms_nano", "from_hms_milli", "from_hms_micro"))
+        # hour / minute / second of the same value, in that order, in any of the `time` crate's equivalent spellings
+        HMS = {}
+        for i_, nm_ in enumerate(("hour", "minute", "second")):
+            HMS["time::OffsetDateTime::%s(dt)" % nm_] = nm_
+            HMS["time::Time::%s(time::OffsetDateTime::time(dt))" % nm_] = nm_
+            HMS["time::Time::as_hms(time::OffsetDateTime::time(dt)).%d" % i_] = nm_
+            HMS["time::OffsetDateTime::to_hms(dt).%d" % i_] = nm_
+        order = [HMS.get(core(a).r(), core(a).r()) for a in fh.args] if fh is not None else None
+        ok = ok and order == ["hour", "minute", "second"]
+        ok = ok and not any(x in parts for x in ("nanosecond", "millisecond", "microsecond", "from_hms_nano", "from_hms_milli", "from_hms_micro", "as_hms_nano", "as_hms_milli", "as_hms_micro"))
     rep.ob("C09.nanos", "%s|dt_strip_nanos" % cfg, ok, "truncation keeps date, offset, hour, minute, second of the same value and drops the sub-second part", found=v.r()[:200])
     rep.sample({"rule": "C09", "cfg": cfg, "utc_when": F.show(cu), "generalized_when": F.show(cg), "utc_value": core(utc[0][2]["args"][0]).r(), "gen_value": core(gen[0][2]["args"][0]).r()})
